@@ -262,6 +262,8 @@ impl GenerationPass for AvailableValuePass {
                     overwritten |= Register::return_addr_set();
                 }
                 out_reg_n.retain(|_, value| !value.refers_to_any(overwritten));
+                // Nothing is ever known about the zero register but that it is zero
+                out_reg_n.retain(|reg, _| !reg.is_const_zero());
                 out_memory_n.retain(|_, value| !value.refers_to_any(overwritten));
 
                 // If either of the outs changed, replace the old outs with the new outs
